@@ -5,12 +5,14 @@ namespace Rip.Driver.C06
 open Rip.Proto Rip.Join
 
 /-- the join-relevant shape of a generated effect order; `viaLog` = history is replayed from the
-log (thread streams), otherwise from the recorded-frames buffer (sessions, tasks) -/
+store (thread streams: `replay_events` answers from the per-thread sidecar whenever it is valid, so a
+frame is in the history once the CACHE append has happened — the later of log and cache), otherwise
+from the recorded-frames buffer (sessions, tasks) -/
 def shapeOf (viaLog : Bool) (o : List Rip.Gen.Eff) : List Micro :=
   o.filterMap (fun e => match e with
     | .publish => some .pub
     | .record => if viaLog then none else some .record
-    | .logAppend => if viaLog then some .record else none
+    | .cacheAppend => if viaLog then some .record else none
     | .lock 1 => if viaLog then none else some .lock
     | .unlock 1 => if viaLog then none else some .unlock
     | _ => none)
@@ -20,7 +22,7 @@ def microsOfPoint (p : String) : List Micro :=
   | "emit.publish" => [.pub]
   | "emit.lock" => [.lock]
   | "emit.record" => [.record, .unlock]
-  | "store.log_append" => [.record]
+  | "store.cache_append" => [.record]
   | "store.publish" => [.pub]
   | _ => []
 
